@@ -72,7 +72,12 @@ def run(spec):
         MS = ufl.MixedFunctionSpace(*subs)
         vs, us = TestFunctions(MS), TrialFunctions(MS)
         sc = lambda a: a if a.ufl_shape == () else a[0]  # noqa: E731
-        if linear:
+        if kind == "upper":
+            # only couplings whose trial part is above the test part (an upper-triangular sub-form on its own)
+            F = sum((k + 2 + 3 * l) * sc(us[l]) * sc(vs[k]) * f * dx for k in range(len(subs)) for l in range(len(subs)) if l > k)
+        elif kind == "lower":
+            F = sum((k + 2 + 3 * l) * sc(us[l]) * sc(vs[k]) * f * dx for k in range(len(subs)) for l in range(len(subs)) if l < k)
+        elif linear:
             F = sum(((k + 1) * f * sc(vs[k]) * dx for k in range(len(subs))), f * sc(vs[0]) * ds)
             if kind == "linear_facet":
                 F = F + avg(f) * jump(sc(vs[len(subs) - 1])) * dS
@@ -221,7 +226,7 @@ def specs(tier):
                                       space="me", elem=elem, kind=kind, replace_argument=repl, single=single,
                                       twin=(elem == "P2v_P1" and kind == "mass" and repl and not single)))
         for n in (2, 3):
-            for kind in ("bilinear", "facet", "linear", "linear_facet"):
+            for kind in ("bilinear", "facet", "linear", "linear_facet", "upper", "lower"):
                 S.append(dict(name=f"{cell}{g}/mfs/n={n}/{kind}", cell=cell, gdim=g, space="mfs", n=n, kind=kind,
                               twin=(n == 2 and kind == "bilinear")))
     S.append(dict(name="triangle3/me/RT_DG/mass/repl=False/single=False", cell="triangle", gdim=3, space="me",
